@@ -277,6 +277,44 @@ pub fn c17_run(max_n: usize) -> WorldOutcome {
         kernel::violation("C17", format!("quorum-size:{kind:?}"), format!("{kind:?} built for k={k} reports quorum_size {}", shared.quorum_size()));
     }
 
+    // ---- decaying acceptance: the documented stateful use before the callers start ----
+    // sample_one is stateful until reset(); after reset() the sampler "is just as it was when it was
+    // first created", so everything below must still hold
+    if let AnySampler::Decaying(d) = shared.as_ref()
+        && kernel::choose(G, 2) == 1
+    {
+        let draws = kernel::choose(G, 7) as usize;
+        let mut rng = StdRng::seed_from_u64(1 + kernel::choose(G, 1 << 20));
+        let r = std::panic::catch_unwind(std::panic::AssertUnwindSafe(|| {
+            let mut count = vec![0usize; n];
+            for _ in 0..draws.min(positive * cap) {
+                let v = d.sample_one(&mut rng).inner() as usize;
+                if v >= n || stakes[v] == 0 {
+                    return Some(format!("sample_one returned validator {v} (n = {n}, stake {:?})", stakes.get(v)));
+                }
+                count[v] += 1;
+                if count[v] > cap {
+                    return Some(format!("sample_one seated validator {v} {} times without a reset, cap {cap}", count[v]));
+                }
+            }
+            d.reset();
+            None
+        }));
+        kernel::probe("decaying_stateful_prologue_then_reset");
+        match r {
+            Ok(None) => {}
+            Ok(Some(what)) => kernel::violation("C17", "stateful-draws:Decaying".to_string(), what),
+            Err(_) => {
+                let ps = kernel::take_panics();
+                let p = ps.last();
+                kernel::violation(
+                    "C17",
+                    format!("sample-panic:Decaying:{}", slug(p.map_or("", |p| p.message.as_str()))),
+                    format!("sample_one/reset panicked for n={n} stakes {stakes:?} k={k}: {:?}", p.map(|p| (&p.message, &p.location))),
+                );
+            }
+        }
+    }
     // ---- operations and their sequential reference ----
     let seeds: Vec<Vec<u64>> = (0..threads).map(|_| (0..ops_per_thread).map(|_| 1 + kernel::choose(G, 1 << 30)).collect()).collect();
     let reference = match build() {
